@@ -115,6 +115,38 @@ def step(cx, S, body):
                     if cc.kind == "call" and cc.term is meq[0]:
                         mte, mfe = bool_edges(b.term, cc)
                         if not cfg.edge_dominates(mte, trues[0].bb): why.append("Start: accepted without the method name test")
+            # parameters: absent, or exactly the empty object (anything else, including a non-object value, is a deviation)
+            from vlib.cfg import enumerate_paths
+            from vlib.pathcond import literals
+            paths = enumerate_paths(cfg, 0, lambda blk: blk.idx == trues[0].bb or blk.term.kind == "return", du=du)
+            def params_ok(lit):
+                if lit.kind != "call" or not lit.truth: return False
+                t = lit.obj
+                def reads_params(a):
+                    if a.place is None: return False
+                    if "parameters" in a.place.fields(): return True
+                    for l in ref_chain(du, a.place.l):
+                        for k, d in du.value_defs(l):
+                            if k == "stmt" and d.kind == "assign":
+                                for q in ([d.rplace] if d.rplace is not None else []) + [o.place for o in d.ops if o.place is not None]:
+                                    if "parameters" in q.fields(): return True
+                    return False
+                if t.callee.name == "is_none" and "Option" in t.callee.path and t.args and reads_params(t.args[0]): return True
+                if t.callee.name == "eq" and len(t.args) == 2 and any(reads_params(a) for a in t.args):
+                    other = [a for a in t.args if not reads_params(a)]
+                    if other:
+                        og = Slice(body, du, extra_pass=("=new",)).origins(other[0])
+                        # Some(Value::Object(Map::new())): an Object aggregate whose payload is a freshly created map
+                        built = [x for x in body.stmts() if x.kind == "assign" and x.rv == "agg" and isinstance(x.agg, dict) and x.agg.get("variant") == "Object"]
+                        newmap = [c for c in body.calls("=new") if "serde_json" in c.callee.path and "Map" in c.callee.path]
+                        return bool(built) and bool(newmap)
+                return False
+            np = 0; badp = 0
+            for pth in paths:
+                if pth[-1] != trues[0].bb: continue
+                np += 1
+                if not any(params_ok(l) for l in literals(body, pth)): badp += 1
+            if np == 0 or badp: why.append("Start: %d of %d accepting paths have not established `parameters` absent or equal to the empty object (a present non-object value would be accepted)" % (badp, np))
         mode = None
     else:
         if len(eqs) != 1 or not (eqs[0].callee.name == "eq" and (S + "_Args") in eqs[0].callee.resolved):
